@@ -37,7 +37,7 @@ LEVEL_TEXT = (
     "For every partially observed screen of the family and every assignment of replacement values (0, 1, 0.77, NaN, -1, 1e300; "
     "up to two masked rows changed at once) every artefact of the real pipeline - training arrays, posterior samples, pairwise "
     "distance matrix for 1..3 chunks, plate scores for every batch of <= 2 already selected plates and 1..3 chunks, selected plate, "
-    "and the train_model CLI output - is compared with the base run; the training multiset is compared with a reference model of "
+    "the train_model CLI output and the whole CLI chain train -> distance -> scores -> select (files on disk) - is compared with the base run; the training multiset is compared with a reference model of "
     "what each shipped model documents using; and add_observations must refuse masked rows, negative and NaN observations at every position."
 )
 RULE = (
@@ -48,7 +48,7 @@ RULE = (
 MENU = [0.0, 1.0, 0.77, float("nan"), -1.0, 1e300]
 PAIR_MENU = [float("nan"), -1.0, 1e300]
 BOUNDS = {
-    "quick": {"screens_per_model": 3, "single_row_values": MENU, "pair_values": PAIR_MENU, "n_chunks": [1, 2, 3], "batch_size": 2,
+    "quick": {"screens_per_model": 5, "single_row_values": MENU, "pair_values": PAIR_MENU, "n_chunks": [1, 2, 3], "batch_size": 2,
               "n_thetas": 4, "burnin": 1, "thin": 1},
     "thorough": {"screens_per_model": 5, "single_row_values": MENU, "pair_values": MENU, "n_chunks": [1, 2, 3, 7], "batch_size": 2,
                  "n_thetas": 5, "burnin": 2, "thin": 2},
@@ -204,14 +204,15 @@ def pipeline(model, rows, tier):
     art["n_obs"] = int(m.n_obs())
     res = sampling.sample(m, ThetaHolder(n_thetas=b["n_thetas"]), seed=3, n_chains=2, chain_index=1, n_burnin=b["burnin"], thin=b["thin"])
     art["thetas"] = theta_bytes(res)
-    metric = MSEDistance(sigmoid=False)
     dense = None
-    for nc in b["n_chunks"]:
-        chunks = [calculate_pairwise_distance_matrix_on_predictions(res, metric, screen, chunk_index=k, n_chunks=nc) for k in range(nc)]
-        dm = ChunkedDistanceMatrix.concat(chunks)
-        d = dm.to_dense()
-        art[f"dist[{nc}]"] = d.tobytes()
-        dense = dm
+    for sig in (True, False):
+        metric = MSEDistance(sigmoid=sig)
+        for nc in b["n_chunks"]:
+            chunks = [calculate_pairwise_distance_matrix_on_predictions(res, metric, screen, chunk_index=k, n_chunks=nc) for k in range(nc)]
+            dm = ChunkedDistanceMatrix.concat(chunks)
+            d = dm.to_dense()
+            art[f"dist[sigmoid={sig},{nc}]"] = d.tobytes()
+            dense = dm
     un = sorted(int(p.plate_id) for p in screen.plates if not p.is_observed)
     batches = [[]] + [list(c) for k in range(1, b["batch_size"] + 1) for c in itertools.combinations(un, k)]
     scorer = GaussianDBALScorer()
@@ -286,6 +287,7 @@ def plan(tier, seed):
                 items.append({"kind": "pairs", "model": model, "screen": idx, "lo": c, "hi": min(len(vs), c + 12)})
             items.append({"kind": "refusal", "model": model, "screen": idx})
             items.append({"kind": "cli", "model": model, "screen": idx})
+            items.append({"kind": "cli-chain", "model": model, "screen": idx})
     return items
 
 
@@ -390,6 +392,74 @@ def cli_thetas(model, rows, tmp, tag):
     return theta_bytes(ThetaHolder.load_h5(out))
 
 
+def cli_chain(model, rows, tmp, tag):
+    """train_model -> calculate_distance_matrix -> calculate_scores -> select_next_plate, all through the real CLI mains."""
+    screen = make_screen(rows, control=CTL)
+    f = lambda n: os.path.join(tmp, f"{tag}_{n}")  # noqa: E731
+    screen.save_h5(f("in.h5"))
+    np.random.seed(12345)
+    cls = "SparseDrugCombo" if model == "combo" else "SparseDrugComboInteraction"
+    thetas = []
+    for c in range(2):
+        run_cli("train_model", ["--data", f("in.h5"), "--output", f(f"thetas_{c}.h5"), "--model", cls, "--model-param", "n_embedding_dimensions=2",
+                                "--n-samples", 2, "--n-burnin", 1, "--thin", 1, "--n-chains", 2, "--chain-index", c, "--seed", 5])
+        thetas.append(f(f"thetas_{c}.h5"))
+    dists = []
+    for k in range(2):
+        run_cli("calculate_distance_matrix", ["--data", f("in.h5"), "--thetas"] + thetas + ["--distance-metric", "MSEDistance", "--n-chunks", 2,
+                                              "--chunk-index", k, "--output", f(f"dist_{k}.h5")])
+        dists.append(f(f"dist_{k}.h5"))
+    out = {"dist": ChunkedDistanceMatrix.concat([ChunkedDistanceMatrix.load(d) for d in dists]).to_dense().tobytes()}
+    un = sorted(int(p.plate_id) for p in screen.plates if not p.is_observed)
+    for batch in [[]] + [[p] for p in un[:2]]:
+        scores = []
+        for k in range(2):
+            argv = ["--data", f("in.h5"), "--thetas"] + thetas + ["--distance-matrix"] + dists + ["--scorer", "GaussianDBALScorer", "--n-chunks", 2,
+                                                                                            "--chunk-index", k, "--output", f(f"scores_{k}.h5"), "--seed", 3]
+            if batch:
+                argv += ["--batch-plate-ids"] + batch
+            run_cli("calculate_scores", argv)
+            scores.append(f(f"scores_{k}.h5"))
+        hs = ChunkedScoresHolder.concat([ChunkedScoresHolder.load_h5(x) for x in scores])
+        order = np.argsort(hs.plate_ids[: hs.current_index], kind="stable")
+        out[f"scores{batch}"] = (hs.plate_ids[order].tobytes(), hs.scores[order].tobytes())
+        argv = ["--data", f("in.h5"), "--scores"] + scores + ["--output", f("selected"), "--seed", 3]
+        if batch:
+            argv += ["--batch-plate-id"] + batch
+        run_cli("select_next_plate", argv)
+        out[f"selected{batch}"] = open(f("selected")).read().strip()
+    return out
+
+
+def run_cli_chain_item(item, col, tier):
+    model, idx = item["model"], item["screen"]
+    rows = base_rows(model, idx)
+    masked = [i for i, r in enumerate(rows) if not r[4]]
+    tmp = env.scratch_dir("c04c")
+    try:
+        base = cli_chain(model, rows, tmp, "b")
+        col.evaluations += 1
+        col.outcome("cli-chain", model, idx, digest(base))
+        for vi, v in enumerate((float("nan"), -1.0, 1e300, 1.0)):
+            var = {i: (v if (i + vi) % 2 == 0 or vi < 2 else 0.77) for i in masked}
+            case = {"kind": "cli-chain", "model": model, "screen": idx, "variant": {str(k): x for k, x in var.items()}}
+            col.evaluations += 1
+            col.states += 1
+            col.transitions += len(base)
+            try:
+                got = cli_chain(model, apply_variant(rows, var), tmp, "v")
+            except BaseException as exc:  # noqa: BLE001
+                col.violation(f"C04|influence|cli-chain-raises|{model}", f"the CLI chain fails ({short_exc(exc)}) when masked rows hold {var} (screen {idx})", case)
+                continue
+            col.nontriv("cli-chain", model, idx, str(sorted(var.items())))
+            changed = diff_artifacts(base, got)
+            if changed:
+                col.violation(f"C04|influence|cli-chain|{changed[0].split('[')[0]}|{model}",
+                              f"CLI chain artefacts {changed[:5]} change when masked rows hold {var} (screen {idx})", case)
+    finally:
+        shutil.rmtree(tmp, ignore_errors=True)
+
+
 def run_cli_item(item, col, tier):
     model, idx = item["model"], item["screen"]
     rows = base_rows(model, idx)
@@ -418,7 +488,7 @@ def run_cli_item(item, col, tier):
 
 
 def run_item(item, col, tier):
-    {"pairs": run_pairs, "refusal": run_refusal, "cli": run_cli_item}[item["kind"]](item, col, tier)
+    {"pairs": run_pairs, "refusal": run_refusal, "cli": run_cli_item, "cli-chain": run_cli_chain_item}[item["kind"]](item, col, tier)
 
 
 def replay(case, col):
@@ -448,4 +518,6 @@ def replay(case, col):
         run_refusal({"model": model, "screen": idx}, col, tier)
     elif kind == "cli":
         run_cli_item({"model": model, "screen": idx}, col, tier)
+    elif kind == "cli-chain":
+        run_cli_chain_item({"model": model, "screen": idx}, col, tier)
     col.evaluations += 1
